@@ -822,7 +822,10 @@ func coqCase(sc scenario, d *shapeDesc, o observation) string {
 
 // ---------- generator ----------
 
-var prefixes = []string{"app", "TEST", "My_App", "x1", "svc-a", "Zeta9", "", "t", "Dummy", "s"}
+// prefixes: plain, upper / mixed case, digits, dashes, the empty one, prefixes of keys of the family, and separators at the
+// end / at the start / doubled (the reported and the honoured names must then both carry the doubled separator)
+var prefixes = []string{"app", "TEST", "My_App", "x1", "svc-a", "Zeta9", "", "t", "Dummy", "s",
+	"APP_", "my_app_", "_lead", "a__b", "Mi-X_9_", "__"}
 var words = []string{"alpha", "Bravo", "char lie", " delta", "echo ", "fox=trot", "GOLF", "h0tel", "in-dia", "ju_liet", "k.ilo", "lima,mike"}
 
 func genValue(r *h.Run, ty, src string, zeroP int) value {
@@ -1007,6 +1010,21 @@ func deterministic(r *h.Run) []scenario {
 		}
 		out = append(out, sc)
 	}
+	// reported names are honoured: for every prefix, the variable of EVERY field of a shape is set and must be loaded
+	for pi, p := range prefixes {
+		sh := shapes[pi%len(shapes)]
+		d := describe(sh.name)
+		sc := scenario{Shape: sh.name, Prefix: p, Note: "every-variable-set"}
+		for i, l := range d.leaves {
+			ls := leafWith(r, l.Ty, 4|(i%2), 0)
+			ls.Flag = nil
+			if l.Ty == "str" && ls.Env.S == "" {
+				ls.Env.S = "env-set"
+			}
+			sc.Leaves = append(sc.Leaves, ls)
+		}
+		out = append(out, sc)
+	}
 	// every subset of the four sources on every leaf of every shape, every binding style, every prefix
 	for si, sh := range shapes {
 		d := describe(sh.name)
@@ -1169,7 +1187,7 @@ func main() {
 	for _, s := range deterministic(r) {
 		runOne(r, s)
 	}
-	n := r.N(450, 3000)
+	n := r.N(300, 3000)
 	for i := 0; i < n; i++ {
 		runOne(r, genRandom(r))
 	}
